@@ -40,11 +40,17 @@ func (fl *flow) path(v ssa.Value, d int) string {
 	if v == nil {
 		return "?"
 	}
-	if d > 14 {
+	if d > 40 {
 		return "…"
 	}
 	switch x := v.(type) {
 	case *ssa.Parameter:
+		// a parameter of a transparent helper (newfn.go) is the caller's argument
+		if site := fl.p.transparentSite(x.Parent()); site != nil {
+			if i, args := paramIndex(x), site.Common().Args; i >= 0 && i < len(args) {
+				return fl.path(args[i], d+1)
+			}
+		}
 		return fmt.Sprintf("$%d", paramIndex(x))
 	case *ssa.FreeVar:
 		// resolve through the closure creation in the parent
@@ -308,11 +314,7 @@ func recvOf(cs ssa.CallInstruction) ssa.Value {
 // callsIn returns the call instructions in f (and optionally nested closures) that may invoke target.
 func callsIn(f *ssa.Function, nested bool, targets ...*ssa.Function) []ssa.CallInstruction {
 	var out []ssa.CallInstruction
-	fs := []*ssa.Function{f}
-	if nested {
-		fs = withAnons(f)
-	}
-	for _, g := range fs {
+	for _, g := range bodyFuncs(f, nested) {
 		instrs(g, func(in ssa.Instruction) {
 			if ci, ok := in.(ssa.CallInstruction); ok {
 				if callIsAny(ci.Common(), targets...) != nil {
